@@ -83,6 +83,9 @@ func Minimise(t *testing.T, d *Desc, prop, class string, maxTrials int) (*Desc, 
 			trials = maxTrials // wall-clock budget used up: stop shrinking, keep what we have
 			return nil, false
 		}
+		if !c.Valid() {
+			return nil, false // e.g. fewer barrier parties than the barrier needs: the symptom would be the harness's
+		}
 		trials++
 		r := Exec(t, c, true, false, nil)
 		return r, Find(Check(r), prop, key) != nil
